@@ -177,6 +177,20 @@ Crash ==
   /\ UNCHANGED <<w, specv, fs, clock, jobs, trk, hsh, useHash>>
   /\ Log("Crash", [after |-> Cardinality(gp.plan \ gp.todo)])
 
+(* the gwf process is killed inside a write of one of its state files.  State-file writes *)
+(* are atomic: the file keeps its previous content or has the new one, never a torn mix.  *)
+(* Modelled for the writes at the end of the run (file = "trk" or "hsh"); a kill inside the *)
+(* write that records the job accepted last is the residual window of assumption A6.      *)
+CrashWrite(file) ==
+  /\ gp.pc = "run" /\ gp.todo = {} /\ cnt.faults < MaxFaults
+  /\ file = "hsh" => gp.hashing
+  /\ gp' = IdleGp
+  /\ trk' = gp.mtrk
+  /\ hsh' \in {hsh, gp.mhsh}
+  /\ Disturb /\ Bump("faults")
+  /\ UNCHANGED <<w, specv, fs, clock, jobs, useHash>>
+  /\ Log("CrashWrite", [file |-> file, after |-> Cardinality(gp.plan \ gp.todo)])
+
 (* the queue/accounting query fails: gwf stops before doing anything *)
 QueryFail(sel) ==
   /\ Idle /\ cnt.faults < MaxFaults /\ cnt.cmds < MaxCmds
@@ -334,7 +348,7 @@ GwfNext ==
   \/ On("Clean") /\ \E sel \in Sels, all \in BOOLEAN : Clean(sel, all)
   \/ (On("Clean") /\ Declined("Clean")) \/ (On("Cancel") /\ Declined("Cancel"))
   \/ \E t \in T : RunSubmit(t) \/ (On("Reject") /\ RunReject(t))
-  \/ RunEnd \/ (On("Crash") /\ Crash)
+  \/ RunEnd \/ (On("Crash") /\ Crash) \/ (On("CrashWrite") /\ \E file \in {"trk", "hsh"} : CrashWrite(file))
 EnvNext ==
   \/ \E f \in Files : (On("EditSource") /\ EditSource(f)) \/ (On("DeleteOutput") /\ DeleteOutput(f))
   \/ On("EditSpec") /\ \E t \in T : EditSpec(t)
@@ -396,7 +410,7 @@ TypeOK ==
 A_HashChange ==
   \A t \in T : hsh'[t] # hsh[t] =>
      /\ useHash \/ gp.hashing
-     /\ \/ hsh'[t] = specv[t] /\ LastAct' \in {"RunEnd", "RunReject", "Touch"}
+     /\ \/ hsh'[t] = specv[t] /\ LastAct' \in {"RunEnd", "RunReject", "Touch", "CrashWrite"}
         \/ hsh'[t] = NoRec /\ LastAct' = "Clean"
 P_HashChange == [][A_HashChange]_vars
 
